@@ -137,7 +137,16 @@ impl SocksListener {
         let auth_server = PasswordAuth {
             required: self.auth.required,
         };
-        let request = SocksRequest::read_from(&mut socket, auth_server).await?;
+        let request = match SocksRequest::read_from(&mut socket, auth_server).await {
+            Ok(request) => request,
+            Err(e) => {
+                // the connection ends here: record it as failed, it would otherwise be logged
+                // without any terminal state or error text
+                let msg = format!("handshake failed: {} cause: {:?}", e, e.cause);
+                ctx.on_error(err_msg(msg)).await;
+                return Err(e);
+            }
+        };
         debug!("request {:?}", request);
 
         ctx.write()
